@@ -21,6 +21,18 @@ def main():
     out = []
     for s in seqs:
         res = []
+        if s["cls"] == "SeedProbe":
+            # the same (possibly unusual) seed argument twice: either it is refused, or the two generators agree
+            outs = []
+            for _ in range(2):
+                try:
+                    seed = eval(s["seed_expr"], {}, {})
+                    g = (PickleMutator(protocol=s["protocol"], seed=seed).generator if s.get("mutator") else pickle_fuzzer.Generator(protocol=s["protocol"], seed=seed))
+                    outs.append(bytes(g.generate()).hex())
+                except Exception as e:  # noqa: BLE001
+                    outs.append("ERR:" + type(e).__name__)
+            out.append(outs)
+            continue
         try:
             if s["cls"] == "Generator":
                 obj = pickle_fuzzer.Generator(protocol=s["protocol"], seed=s["seed"]) if s["seed"] is not None else pickle_fuzzer.Generator(protocol=s["protocol"])
